@@ -81,8 +81,49 @@ func zzvBuildBucket(base string, hist []zzvWrite) (*FSBucket, string, map[string
 		default:
 			model[name] = content
 		}
+		// Listings are steps of the history too: the same handle lists the bucket, and the written name's
+		// first component, after every write (a handle that remembers an earlier listing must not serve it).
+		prefixes := []string{""}
+		if i := strings.Index(name, "/"); i >= 0 {
+			prefixes = append(prefixes, name[:i+1])
+		}
+		for _, pre := range prefixes {
+			var want []string
+			for k := range model {
+				if strings.HasPrefix(k, pre) {
+					want = append(want, k)
+				}
+			}
+			sort.Strings(want)
+			got, lerr := zzvList(b, pre)
+			if lerr != "" || fmt.Sprint(got) != fmt.Sprint(want) {
+				errs = append(errs, fmt.Sprintf("LIST:listing with prefix %q right after the write of %q returns %v %s, stored objects with that prefix are %v", pre, name, got, lerr, want))
+			}
+		}
 	}
 	return b, dir, model, errs
+}
+
+// zzvList lists a prefix on the given handle (sorted names; a panic or an error is reported as text).
+func zzvList(b *FSBucket, prefix string) (got []string, problem string) {
+	defer func() {
+		if r := recover(); r != nil {
+			problem = fmt.Sprintf("(panic: %v)", r)
+		}
+	}()
+	it := b.Objects(context.Background(), prefix)
+	for {
+		n, err := it.Next()
+		if errors.Is(err, ErrObjectIteratorDone) {
+			break
+		}
+		if err != nil {
+			return got, fmt.Sprintf("(error: %v)", err)
+		}
+		got = append(got, n)
+	}
+	sort.Strings(got)
+	return got, ""
 }
 
 func zzvCheckBucket(res *vrep.Result, b *FSBucket, dir string, model map[string][]byte, hist string) {
@@ -161,7 +202,7 @@ func TestVerifC18(t *testing.T) {
 	res := vrep.New("C18", p)
 	defer res.Guard()
 	base, _ := vrep.Scratch("c18")
-	res.Rule = "E2: BFS over write sequences (12 names incl. nested, shared prefixes and the services' date/X shapes x 3 contents incl. 70 KiB) to depth 3 (thorough 4), state = model map, every read of every name and every listing of 12 prefixes checked in every state; E3: every object name the upload, merge and chart services construct from validated weeks, X values and date ranges resolves inside the bucket directory"
+	res.Rule = "E2: BFS over write sequences (12 names incl. nested, shared prefixes and the services' date/X shapes x 3 contents incl. 70 KiB) to depth 3 (thorough 4), state = model map, every read of every name and every listing of 12 prefixes checked in every state, and the same handle lists the bucket and the written name's first component after every write of the history; E3: every object name the upload, merge and chart services construct from validated weeks, X values and date ranges resolves inside the bucket directory"
 	res.Assumptions = []string{"file-system backend only (no GCS emulator offline)", "writing a name that is a directory prefix of a stored object (or lies below a stored object) cannot succeed on a file system: such a write must fail and change nothing; reading such an absent name must still report not-exist"}
 	depth := 3
 	if p.Thorough() {
@@ -180,7 +221,11 @@ func TestVerifC18(t *testing.T) {
 			b, dir, model, errs := zzvBuildBucket(base, nd.hist)
 			hs := fmt.Sprint(nd.hist)
 			for _, e := range errs {
-				res.Violate("write", e+" after writes "+hs, map[string]any{"writes": hs})
+				sig := "write"
+				if strings.HasPrefix(e, "LIST:") {
+					sig, e = "list-differs:between-writes", strings.TrimPrefix(e, "LIST:")
+				}
+				res.Violate(sig, e+" after writes "+hs, map[string]any{"writes": hs})
 			}
 			zzvCheckBucket(res, b, dir, model, hs)
 			os.RemoveAll(dir)
